@@ -301,4 +301,73 @@ theorem c24_invalid_utf8_is_lossy : sanitize [0xff] = [0xEF, 0xBF, 0xBD] ∧ ¬ 
   · decide
   · unfold ValidUtf8; decide
 
+/-! ## client → server through the JSON layer -/
+
+/-- inbound frames the JSON layer can carry: strings are valid UTF-8 -/
+def TextOKIn : Frame → Prop
+  | .connect c => ValidUtf8 c.clientKey ∧ ValidUtf8 c.deviceID ∧ ValidUtf8 c.uid ∧ ValidUtf8 c.token
+  | .send s => ValidUtf8 s.msgKey ∧ ValidUtf8 s.clientMsgNo ∧ ValidUtf8 s.streamNo ∧ ValidUtf8 s.channelID ∧ ValidUtf8 s.topic
+  | .disconnect d => ValidUtf8 d.reason
+  | _ => True
+
+/-- **the bridge is faithful, client → server, through the JSON layer**: for every inbound frame (CONNECT, SEND, PING,
+    DISCONNECT, RECVACK) with valid-UTF-8 strings, in-range integers and a non-empty valid request id, the message the client
+    builds survives Encode/Decode (`reDecode`) and `ToFrame` returns `normIn f` with the request id (none for RECVACK). -/
+theorem c24_bridge_faithful_in (rid : Str) (f : Frame) (hf : IsInbound f) (hr : InRange f) (ht : TextOKIn f)
+    (hid : rid ≠ [] ∧ ValidUtf8 rid) :
+    ∃ m m', peerFromFrame rid f = some m ∧ reDecode m = .ok m' ∧ toFrame m' = .ok (normIn f, ridIn rid f) := by
+  obtain ⟨m, hm, hto⟩ := c24_bridge_roundtrip_in rid f hf hr
+  refine ⟨m, m, hm, ?_, hto⟩
+  unfold ValidUtf8 at hid
+  cases f with
+  | connect c =>
+    injection hm with hm; subst hm
+    obtain ⟨h1, h2, h3, h4⟩ := ht
+    unfold ValidUtf8 at h1 h2 h3 h4
+    simp only [reDecode, hid.1, if_false, hid.2, h1, h2, h3, h4]
+  | send s =>
+    injection hm with hm; subst hm
+    obtain ⟨h1, h2, h3, h4, h5⟩ := ht
+    unfold ValidUtf8 at h1 h2 h3 h4 h5
+    simp only [reDecode, hid.1, if_false, hid.2, h1, h2, h3, h4, h5]
+  | recvack r =>
+    injection hm with hm; subst hm
+    have := validUtf8_fmtInt r.messageID
+    unfold ValidUtf8 at this
+    simp only [reDecode, this]
+  | disconnect d =>
+    injection hm with hm; subst hm
+    unfold TextOKIn ValidUtf8 at ht
+    simp only [reDecode, hid.1, if_false, hid.2, ht]
+  | ping fl =>
+    injection hm with hm; subst hm
+    simp only [reDecode, hid.1, if_false, hid.2]
+  | pong _ => exact absurd hf (by simp [IsInbound])
+  | connack _ => exact absurd hf (by simp [IsInbound])
+  | sendack _ => exact absurd hf (by simp [IsInbound])
+  | recv _ => exact absurd hf (by simp [IsInbound])
+  | event _ => exact absurd hf (by simp [IsInbound])
+
+example : ∃ m m', peerFromFrame [114] (.recvack { fl := {}, messageID := -5, messageSeq := 2 ^ 40 }) = some m ∧ reDecode m = .ok m' ∧
+    toFrame m' = .ok (.recvack { fl := {}, messageID := -5, messageSeq := 2 ^ 40 }, []) :=
+  c24_bridge_faithful_in [114] _ trivial (by show int64 (-5); unfold int64; omega) trivial ⟨by decide, by unfold ValidUtf8; decide⟩
+
+/-- a request without an id never reaches `ToFrame` as a request: the JSON layer drops the empty id and `Decode` then
+    refuses it (CONNECT/SEND/PING) or takes it for a notification that `ToFrame` rejects (DISCONNECT) -/
+theorem c24_request_needs_id (f : Frame) (hf : IsInbound f) (hra : ∀ r, f ≠ .recvack r) (m : Msg) (hm : peerFromFrame [] f = some m) :
+    reDecode m = .error .unknownnotif ∨ ∃ m', reDecode m = .ok m' ∧ toFrame m' = .error .unknownpacket := by
+  cases f with
+  | connect c => injection hm with hm; subst hm; exact Or.inl rfl
+  | send s => injection hm with hm; subst hm; exact Or.inl rfl
+  | ping fl => injection hm with hm; subst hm; exact Or.inl rfl
+  | disconnect d => injection hm with hm; subst hm; exact Or.inr ⟨_, rfl, rfl⟩
+  | recvack r => exact absurd rfl (hra r)
+  | pong _ => exact absurd hf (by simp [IsInbound])
+  | connack _ => exact absurd hf (by simp [IsInbound])
+  | sendack _ => exact absurd hf (by simp [IsInbound])
+  | recv _ => exact absurd hf (by simp [IsInbound])
+  | event _ => exact absurd hf (by simp [IsInbound])
+
+example : reDecode (.pingReq []) = .error .unknownnotif := rfl
+
 end WK.C24
